@@ -149,8 +149,10 @@ def gen_cases(ctx):
                     ob[i] = rng.choice(pool + [math.nextafter(oa[i], INF), math.nextafter(oa[i], -INF)])
         else:
             ob = gen_point(rng, n, pool)
-        ca = rng.choice(CVPOOL) if con else 0.0
-        cb = (ca if rng.random() < 0.4 else rng.choice(CVPOOL)) if con else 0.0
+        # on an UNCONSTRAINED problem (con == 0) the solutions may still carry a stale non-zero constraint_violation
+        # attribute; the definition says it must be ignored there
+        ca = rng.choice(CVPOOL) if (con or rng.random() < 0.3) else 0.0
+        cb = (ca if rng.random() < 0.4 else rng.choice(CVPOOL)) if (con or rng.random() < 0.3) else 0.0
         cases.append((con, dirs, (oa, ca), (ob, cb)))
     return cases
 
